@@ -1801,12 +1801,49 @@ class Interp:
             return False
         return isinstance(v, Const) and isinstance(v.value, (tuple, list)) and len(v.value) <= 12
 
+    def _comp_exact_raising(self, node, st, elt):
+        """One generator, no filter, exactly known short iterable: element-wise evaluation where an element may
+        also raise (`[int(getattr(self, n)) for n in FIELDS]`): the raising outcomes are outcomes of the whole
+        comprehension, the single normal outcome of each element continues. None if anything else forks."""
+        if len(node.generators) != 1 or node.generators[0].ifs:
+            return None
+        gen = node.generators[0]
+        outs = self.ev(gen.iter, st)
+        if len(outs) != 1 or outs[0][0] != "val":
+            return None
+        s = outs[0][1]
+        items = self._exact_items(outs[0][2])
+        if items is None or len(items) > 12:
+            return None
+        raises, rows = [], []
+        for item in items:
+            r = self.assign_target(s, gen.target, item, gen.target)
+            if len(r) != 1 or r[0][0] != "next":
+                return None
+            vals = []
+            for k, s2, v in self.ev(elt, r[0][1]):
+                if k == "val":
+                    vals.append((s2, v))
+                elif k == "raise":
+                    raises.append((k, s2, v))
+                else:
+                    return None
+            if len(vals) != 1:
+                return None
+            s, v = vals[0]
+            rows.append(v)
+        return raises, s, rows
+
     def ev_ListComp(self, node, st):
         if self.table_values or self._small_exact_iter(node, st):
             ex = self._comp_exact(node, st.copy(), [node.elt])
             if ex is not None:
                 s, rows = ex
                 return [("val", s, ListV([r[0] for r in rows], label=self.site_label(s, node, "lc")))]
+            ex2 = self._comp_exact_raising(node, st.copy(), node.elt)
+            if ex2 is not None:
+                raises, s, rows = ex2
+                return raises + [("val", s, ListV(rows, label=self.site_label(s, node, "lc")))]
         return [(k, s, ListV(None, elem=v[0], label=self.site_label(s, node, "lc")) if k == "val" else v) for k, s, v in self._comp(node, st, [node.elt])]
 
     ev_SetComp = ev_ListComp
